@@ -24,6 +24,17 @@ CLAIMS = {
         "The universal floating-point clause is not a theorem: it is carried by layer R (hypotheses = monotone rounding laws) "
         "and by the oracle/correspondence on decimal inputs. PointTier.eraseRegion and Textgrid.eraseRegion are checked by "
         "correspondence + oracle (rejection of a>=b is proved for both tier kinds)."),
+ "C08": dict(
+   text="Theorems over unbounded Int timestamps / any list length: insertSpace on a well-formed tier (lo <= s, d > 0) succeeds unless "
+        "mode='error' meets a straddler (then ArgumentError); the result is well-formed, every entry ending <= s is unchanged, "
+        "every entry starting >= s is moved by exactly d, the straddler is stretched / split around the gap / left alone per "
+        "mode, span start unchanged and span end + d; outside the gap the label function is the old one (shifted by d after "
+        "the gap), the split gap is unlabelled; composing with eraseRegion(s, s+d, truncate, shrink) restores the original "
+        "label-at-every-time function and span (stretch and split); point tiers: t <= s stay, later points + d. Tied to the "
+        "code by bit-exact differential runs incl. the composition.",
+   ref="DESIGN §4 C08",
+   note="The inverse theorem assumes NoClose for the intermediate tier (C07's separation hypothesis). Rounding: the repaired "
+        "arithmetic paths are compared bit for bit and checked by the oracle on decimals; no universal float theorem."),
  "C06": dict(
    text="Theorems over unbounded Int timestamps and entry lists of any length: the five-arm window/interval cascade equals "
         "interval arithmetic in every mode; crop of a well-formed tier never fails for a<b, returns exactly the per-mode selection, "
